@@ -117,3 +117,69 @@ fn c18_3a_del_fd_disarms_the_timer() {
 fn c18_3b_del_fd_without_timer() {
     del_fd_from::<false>();
 }
+
+static mut LIST_ADDS: usize = 0;
+static mut LIST_ADD_DUR: Option<std::time::Duration> = None;
+static mut LIST_IS_HEAD: bool = false;
+static mut WAKEUPS: usize = 0;
+static mut WAKE_ID: usize = usize::MAX;
+static mut STUB_Q: *const TimeoutQueue<crate::timeout_list::TimeoutData<super::super::TimerData>> = std::ptr::null();
+
+/// contract of `TimeOutList::add_timer`: the entry is in a list; the flag says whether it became the head of its list
+fn list_add_timer_contract<T>(_l: &crate::timeout_list::TimeOutList<T>, dur: std::time::Duration, data: T) -> (crate::timeout_list::TimeoutHandle<T>, bool) {
+    unsafe {
+        LIST_ADDS += 1;
+        LIST_ADD_DUR = Some(dur);
+        let q = &*(STUB_Q as *const TimeoutQueue<crate::timeout_list::TimeoutData<T>>);
+        let (h, _) = q.push(tl::mk_timeout_data(data));
+        (h, LIST_IS_HEAD)
+    }
+}
+fn wakeup_stub(_s: &Selector, id: usize) {
+    unsafe {
+        WAKEUPS += 1;
+        WAKE_ID = id;
+    }
+}
+
+//@ obligation: C18.3c
+//@ property: C18
+//@ kind: K3
+//@ complete: yes
+//@ functions: Selector::add_io_timer
+//@ statement: arming an I/O timer: exactly the caller's duration goes to the timer list of the worker that owns the socket, once; the entry points back at THIS
+//@ statement: socket; the handle is stored in the socket's timer slot (where every taker of the coroutine looks for it to disarm it); when the entry became
+//@ statement: the head of its list that worker's event loop is woken to recompute its epoll time-out (otherwise the time-out fires late or never)
+#[kani::proof]
+#[kani::stub(crate::scheduler::get_scheduler, sup::get_scheduler_stub)]
+#[kani::stub(<crate::park::Park as std::ops::Drop>::drop, sup::park_drop_noop)]
+#[kani::stub(crate::timeout_list::TimeOutList::add_timer, list_add_timer_contract)]
+#[kani::stub(crate::io::sys::select::Selector::wakeup, wakeup_stub)]
+#[kani::unwind(3)]
+fn c18_3c_add_io_timer_arms_the_socket() {
+    let sel = mk_selector();
+    let io = ios::mk_io();
+    let q: &'static TimeoutQueue<crate::timeout_list::TimeoutData<super::super::TimerData>> = Box::leak(Box::new(TimeoutQueue::new()));
+    let secs: u64 = kani::any();
+    let nanos: u32 = kani::any();
+    kani::assume(nanos < 1_000_000_000);
+    let d = std::time::Duration::new(secs, nanos);
+    unsafe {
+        STUB_Q = q;
+        LIST_ADDS = 0;
+        WAKEUPS = 0;
+        LIST_IS_HEAD = kani::any();
+    }
+    sel.add_io_timer(io, d);
+    unsafe {
+        assert!(LIST_ADDS == 1 && LIST_ADD_DUR == Some(d), "[C18.3-exact-duration] the I/O time-out is armed with exactly the configured duration, once");
+        assert!(io.timer.borrow().is_some(), "[C18.3-handle-in-slot] the timer handle must be stored in the socket's timer slot: whoever takes the coroutine looks there to disarm the timer");
+        if LIST_IS_HEAD {
+            assert!(WAKEUPS >= 1 && WAKE_ID == io.fd as usize % 2, "[C18.3-wake-for-new-head] a timer that became the head of its list: the owning worker's event loop must be woken to recompute its epoll time-out");
+        }
+        match q.pop() {
+            Some(e) => assert!(e.data.event_data as *const EventData == ios::IO, "[C18.3-points-at-socket] the timer entry points back at the socket it was armed for"),
+            None => assert!(false, "[C18.3-armed] no timer entry was created"),
+        }
+    }
+}
